@@ -45,8 +45,12 @@ Definition blendv {A} (a b : list A) (c : list bool) : list A :=
 Definition enumerate {A} (l : list A) : list (nat * A) := combine (seq 0 (length l)) l.
 
 (* `i as i32` stored in a 32-bit lane and read back as u32 / `i as i16` read back as u16 *)
-Definition wrap32 (i : nat) : nat := N.to_nat (N.modulo (N.of_nat i) 4294967296).
-Definition wrap16 (i : nat) : nat := N.to_nat (N.modulo (N.of_nat i) 65536).
+(* (the test only avoids rebuilding the unary number in the common case: both branches are
+   i mod 2^32, resp. i mod 2^16) *)
+Definition wrap32 (i : nat) : nat :=
+  if (N.of_nat i <? 4294967296)%N then i else N.to_nat (N.modulo (N.of_nat i) 4294967296).
+Definition wrap16 (i : nat) : nat :=
+  if (N.of_nat i <? 65536)%N then i else N.to_nat (N.modulo (N.of_nat i) 65536).
 
 Inductive arm := AGeneric | ASse2 | AAvx2.
 
